@@ -64,11 +64,23 @@ pub fn containers(nil_ne: bool) -> (String, Uni) {
     (tag, uni)
 }
 
+/// Typing universe (C04): the container universe with `i s t xi xb` mandatory.
+pub fn typing(nil_ne: bool) -> (String, Uni) {
+    let (_, mut uni) = containers(nil_ne);
+    for f in uni.fields.iter_mut() {
+        if ["i", "s", "t", "xi", "xb"].contains(&f.0.as_str()) {
+            f.2 = false;
+        }
+    }
+    (format!("typing:nilne={}", nil_ne as u8), uni)
+}
+
 pub fn by_tag(tag: &str) -> Option<Uni> {
     let head = tag.split(':').next()?;
     match head {
         "scalar" => Some(scalar(flag(tag, "opt"), flag(tag, "nilne")).1),
         "containers" => Some(containers(flag(tag, "nilne")).1),
+        "typing" => Some(typing(flag(tag, "nilne")).1),
         _ => crate::checks::universe_by_tag(tag),
     }
 }
